@@ -97,6 +97,17 @@ func drawYamlFile(t *rapid.T, label, ruleID, ext string, maxTests int) (C13File,
 		if numbered {
 			tv = ruleID + "-" + fmt.Sprint(i)
 		}
+		descDone := false
+		if chance(t, 12, label+"-descfirst") {
+			// the description comes first, as a block scalar; id and title follow as siblings
+			add("other", "", i, "  - desc: "+pick(t, []string{"|", ">-", "|-", ">"}, label+"-scalar"))
+			add("other", "", i, "      "+drawWord(t, 2, 6, label+"-dl1")+" first line")
+			if drawBool(t, label+"-dl2") {
+				add("other", "", i, "        deeper "+drawWord(t, 1, 4, label+"-dl2w"))
+			}
+			first = false
+			descDone = true
+		}
 		switch lay {
 		case "id":
 			item("test_id", idv)
@@ -113,7 +124,9 @@ func drawYamlFile(t *rapid.T, label, ruleID, ext string, maxTests int) (C13File,
 		if first {
 			ind = "  - "
 		}
-		add("other", "", i, ind+"desc: \""+drawWord(t, 1, 6, label+"-desc")+"\"")
+		if !descDone {
+			add("other", "", i, ind+"desc: \""+drawWord(t, 1, 6, label+"-desc")+"\"")
+		}
 		if chance(t, 60, label+"-stages") {
 			add("other", "", i, "    stages:")
 			add("other", "", i, "      - input:")
